@@ -24,7 +24,7 @@ BUDGET = {"quick": {"runs": 24000, "wall": 80}, "thorough": {"runs": 400000, "wa
 SHRINK_LISTS = ("ops",)
 PROBES = {"C20": ["stop:budget", "stop:patience", "stop:reject", "stop:tol", "step-after-stop",
                   "reset-after-stop", "reset-with-stale-patience", "exact-threshold", "batched-mixed",
-                  "driver:optimize", "driver:optimize-again", "driver:optimize-ended-by-exception", "driver:mpc", "driver:icp", "driver:second-call", "first-step-inf", "verbose"]}
+                  "driver:optimize", "driver:optimize-again", "driver:optimize-ended-by-exception", "driver:mpc", "driver:icp", "driver:second-call", "first-step-inf", "verbose", "loss==tol"]}
 
 DYADIC = (0.5, 0.25, 1.0, 0.125, 2.0)
 KINDS = ("dec_big", "dec_small", "equal", "increase", "exact_thr", "below_tol", "rejected")
@@ -330,6 +330,9 @@ def _exec_bason(plan, out, tr):
                 v = prev / (1 + d * 0.6 * f)
             elif kind == "increase":
                 v = prev * (1.05 + f)
+            elif kind == "below_tol" and tol > 0 and o["j"] % 5 == 0:
+                v = tol                          # exactly at the tolerance: not below it
+                out.probe("loss==tol")
             elif kind == "below_tol" and tol > 0:
                 v = tol * (0.01 + 0.8 * f)
             else:
